@@ -9,10 +9,10 @@ git diff > "$out/patch.diff"
 cp demo_*.py "$out/" 2>/dev/null
 demo=$(ls demo_*.py | head -1)
 /venv/bin/python "$demo" > "$out/demo_with_change.txt" 2>&1; with=$?
-git stash -q
+git diff > /tmp/wt/.keep_$id.diff; git checkout -- wntr
 if git diff --quiet -- '*.cpp' '*.hpp' 2>/dev/null && ! grep -q '\.cpp\|\.hpp' "$out/patch.diff"; then :; else /venv/bin/python setup.py build_ext --inplace >/dev/null 2>&1; fi
 /venv/bin/python "$demo" > "$out/demo_without_change.txt" 2>&1; without=$?
-git stash pop -q
+git apply /tmp/wt/.keep_$id.diff
 if grep -q '\.cpp\|\.hpp' "$out/patch.diff"; then /venv/bin/python setup.py build_ext --inplace >/dev/null 2>&1; fi
 tres="not re-run"
 if [ -n "$tests" ]; then tres=$(/venv/bin/python -m pytest -q -p no:cacheprovider $tests 2>&1 | tail -1); fi
